@@ -310,3 +310,116 @@ OBLIGATIONS.append(Ob('nested_fault', ob_nested_fault, ['0 <= k <= 4'], timeout=
 OBLIGATIONS.append(Ob('prefix_with_underscore', make_obj_prefix_us(3), ['0 <= n <= 3'], timeout=tier(250, 900), data='length, payloads', selectors='prefix=row_v (underscore inside the prefix): all aliases'))
 OBLIGATIONS.append(Ob('tuples_of_mappings', make_tuples_mapping(3, False), ['0 <= n <= 3'], timeout=tier(250, 900), data='length, payloads, keys', selectors='(key, mapping) pairs with the mapping option, prefix=p'))
 OBLIGATIONS.append(Ob('tuples_of_mappings_batch', make_tuples_mapping(3, True), ['0 <= n <= 3'], timeout=tier(250, 900), data='length, payloads, keys', selectors='(key, mapping) pairs, mapping, batched'))
+
+
+# ---------------------------------------------------------------- wave 3
+T_MAP_NOPUSH = cooked('<dtml-in seq mapping no_push_item><dtml-call "rec(_)">.<dtml-else>EMPTY</dtml-in>' + AFTER)
+T_MAP_NOPUSH_B = cooked('<dtml-in seq mapping no_push_item size=9><dtml-call "rec(_)">.<dtml-else>EMPTY</dtml-in>' + AFTER)
+T_TUP_NOPUSH_B = cooked('<dtml-in seq no_push_item start=1 size=9><dtml-call "rec(_)">.<dtml-else>EMPTY</dtml-in>' + AFTER)
+
+
+def make_mapping_nopush(nmax, batch):
+    """mapping + no_push_item: the element's keys are NOT visible in the body (the outer x shows through), in both renderers"""
+    def ob(n: int, a: int, b: int, c: int) -> bool:
+        k = pick(n, nmax + 1)
+        xs = [a, b, c][:k]
+        items = [{'x': xs[i], 'i': i} for i in range(k)]
+        rec = Rec()
+        out = (T_MAP_NOPUSH_B if batch else T_MAP_NOPUSH)(seq=items, rec=rec, x='outer')
+        tail = '|outer|UNBOUND|UNBOUND|UNBOUND'
+        if k == 0:
+            return out == 'EMPTY' + tail
+        return out == '.' * k + tail and check_rows(rec.rows, items, xs, 0, k - 1, k, pushed=False)
+    ob.__name__ = 'ob_mapping_nopush_%s' % ('batch' if batch else 'plain')
+    return ob
+
+
+def make_tuples_nopush_batch(nmax):
+    def ob(n: int, a: int, b: int, c: int) -> bool:
+        k = pick(n, nmax + 1)
+        xs = [a, b, c][:k]
+        objs = [O(xs[i], i) for i in range(k)]
+        seq = [('k%d' % i, objs[i]) for i in range(k)]
+        rec = Rec(with_key=True)
+        out = T_TUP_NOPUSH_B(seq=seq, rec=rec, x='outer')
+        tail = '|outer|UNBOUND|UNBOUND|UNBOUND'
+        if k == 0:
+            return out == 'EMPTY' + tail
+        return out == '.' * k + tail and check_rows(rec.rows, objs, xs, 0, k - 1, k, keys=['k%d' % i for i in range(k)], pushed=False)
+    return ob
+
+
+OBLIGATIONS.append(Ob('mapping_no_push_item', make_mapping_nopush(3, False), ['0 <= n <= 3'], timeout=tier(250, 900), data='length, payloads', selectors='mapping no_push_item (unbatched)'))
+OBLIGATIONS.append(Ob('mapping_no_push_item_batch', make_mapping_nopush(3, True), ['0 <= n <= 3'], timeout=tier(250, 900), data='length, payloads', selectors='mapping no_push_item size=9 (batched renderer)'))
+OBLIGATIONS.append(Ob('tuples_no_push_item_batch', make_tuples_nopush_batch(3), ['0 <= n <= 3'], timeout=tier(250, 900), data='length, payloads', selectors='(key, object) pairs, no_push_item start=1 size=9'))
+
+T_PLAIN_B = cooked('<dtml-in seq size=9><dtml-call "rec(_)">.<dtml-else>EMPTY</dtml-in>' + AFTER)
+
+
+def make_plain_none(nmax, batch):
+    """elements may be None (or other false values): every element is still visited once, in order, whatever container delivers it"""
+    def ob(n: int, ka: int, kb: int, kc: int, ck: int) -> bool:
+        k = pick(n, nmax + 1)
+        pool = [None, 0, '', 5]
+        items = [pool[pick(x, 4)] for x in [ka, kb, kc][:k]]
+        rec = Rec(with_x=False)
+        out = (T_PLAIN_B if batch else T_PLAIN)(seq=container(pick(ck, 4), items), rec=rec, x='outer')
+        tail = '|outer|UNBOUND|UNBOUND|UNBOUND'
+        if k == 0:
+            return out == 'EMPTY' + tail
+        return out == '.' * k + tail and check_rows(rec.rows, items, None, 0, k - 1, k)
+    ob.__name__ = 'ob_plain_none_%s' % ('batch' if batch else 'plain')
+    return ob
+
+
+for _b in (False, True):
+    OBLIGATIONS.append(Ob('plain_false_elements' + ('_batch' if _b else ''), make_plain_none(3, _b), ['0 <= n <= 3', '0 <= ka < 4', '0 <= kb < 4', '0 <= kc < 4', '0 <= ck < 4'],
+                          timeout=tier(250, 900), data='-', selectors='up to 3 elements each selected from None / 0 / "" / 5, container kind list / tuple / generator / SequenceFromIter'
+                          + (', size=9' if _b else '')))
+
+ROMAN_BIG = [(1000, 'M'), (900, 'CM'), (500, 'D'), (400, 'CD'), (100, 'C'), (90, 'XC'), (50, 'L'), (40, 'XL'), (10, 'X'), (9, 'IX'), (5, 'V'), (4, 'IV'), (1, 'I')]
+
+
+def ref_roman(n):
+    out = ''
+    for v, s in ROMAN_BIG:
+        while n >= v:
+            out += s
+            n -= v
+    return out
+
+
+T_POS = cooked('<dtml-in seq start=st size=2><dtml-call "rec(_)"></dtml-in>')
+SEQ60 = list(range(1000, 1060))
+
+
+def ob_high_positions(st: int) -> bool:
+    """positions far into the sequence: index/number/even/odd/roman/Roman and letter/Letter (documented for the first 26) of a window
+    starting at a symbolic position of a 60-element sequence"""
+    s0 = pick(st, 59) + 1
+    rows = []
+
+    def rec(md):
+        rows.append([md['sequence-' + k] for k in ('index', 'number', 'even', 'odd', 'roman', 'Roman', 'item', 'start', 'end', 'letter', 'Letter')])
+        return ''
+    from crosshair.tracers import NoTracing
+    with NoTracing():
+        T_POS(seq=SEQ60, st=s0, rec=rec)
+        if len(rows) != 2:
+            return False
+        for j, r in enumerate(rows):
+            i = s0 - 1 + j
+            if r[0] != i or r[1] != i + 1 or bool(r[2]) != (i % 2 == 0) or bool(r[3]) != (i % 2 == 1):
+                return False
+            if r[5] != ref_roman(i + 1) or r[4] != ref_roman(i + 1).lower() or r[6] != 1000 + i:
+                return False
+            if bool(r[7]) != (j == 0) or bool(r[8]) != (j == 1):
+                return False
+            if i < 26 and (r[9] != 'abcdefghijklmnopqrstuvwxyz'[i] or r[10] != 'ABCDEFGHIJKLMNOPQRSTUVWXYZ'[i]):
+                return False
+        return True
+
+
+OBLIGATIONS.append(Ob('high_positions', ob_high_positions, ['0 <= st < 59'], timeout=tier(150, 400), data='-',
+                      selectors='window of 2 at a selected start 1..59 of a 60-element sequence: position variables against an independent roman-numeral oracle',
+                      outside='positions beyond 60; letters beyond the 26th element', stubs='render runs untraced once the start is fixed on the path'))
